@@ -1,3 +1,4 @@
+#![recursion_limit = "1024"]
 //! Kani proof harnesses over the real palette code (path dependency on /repo/palette).
 //! Harness files are `cNN*.rs`; `registry.rs` (generated) declares them and lists them for native replay.
 #![allow(dead_code, unused_imports, unused_variables, unused_mut, clippy::all)]
